@@ -138,6 +138,10 @@ def gen_searchspec(ch, cfg: dict) -> SearchSpec:
         items.append(("lit", "|"))
     for k in range(1, n_gen + 1):
         items.append(("nt", "g_%d" % k))
+    n_dep = ch.weighted([4, 3, 2], "spec", "ndep") if cfg.get("generators", True) else 0
+    for k in range(1, n_dep + 1):
+        items.append(("nt", "d_%d" % k))
+        items.append(("lit", "_"))
     items += [("lit", "|"), ("nt", "body")]
     s.rules["start"] = ("cat", tuple(items))
     s.rules["fa"] = ("rx", r"[0-9]{1,3}", "d")
@@ -165,6 +169,20 @@ def gen_searchspec(ch, cfg: dict) -> SearchSpec:
         s.rules[name] = ("rx", r"[0-9]{2,4}", "d")
         s.generators[name] = ("_vb.gen('%s')" % name, ())
         s.gen_fields.append(name)
+    for k in range(1, n_dep + 1):
+        # a generator with arguments: the argument symbols are parameter-only (not derived from <start>)
+        name = "d_%d" % k
+        two = bool(ch.draw(2, "spec", "dep-two-args"))
+        # the generated field has inner structure, so an operator *could* edit below it
+        s.rules[name] = ("rep", ("nt", "dg"), 1, 4)
+        s.rules["dg"] = ("rx", r"[0-9]", "d")
+        s.rules["pa_%d" % k] = ("rx", r"[ab]", "p")
+        deps = ("pa_%d" % k,)
+        if two:
+            s.rules["pb_%d" % k] = ("rx", r"[ab]{1,2}", "p")
+            deps += ("pb_%d" % k,)
+        s.generators[name] = ("_vb.gen('%s', %s)" % (name, ", ".join("str(<%s>)" % d for d in deps)), deps)
+        s.gen_fields.append(name)
     for n, rule in body.rules.items():
         s.rules["body" if n == "start" else "b_" + n] = _rename(rule)
     # ---- constraints -----------------------------------------------------------------
@@ -179,7 +197,7 @@ def gen_searchspec(ch, cfg: dict) -> SearchSpec:
         n_extra = 1 + ch.draw(len(s.cons), "spec", "nextra")
     s.extra_constraints = [c["text"][len("where ") :] for c in s.cons[len(s.cons) - n_extra :]] if n_extra else []
     s.constraints = [c["text"] for c in (s.cons[: len(s.cons) - n_extra] if n_extra else s.cons)]
-    if n_gen:
+    if n_gen or n_dep:
         s.py_prelude = ["from simfw import bridge as _vb"]
     return s
 
